@@ -308,6 +308,56 @@ def _struct_probe(spec):
     return lines
 
 
+NTLINE_MAX = 3
+
+
+def _nt_term(o):
+    """JSON term -> the model's N-Triples term notation (literals as rdflib builds them)"""
+    if o[0] == "i":
+        return f"i:{cps(o[1])}"
+    if o[0] == "b":
+        return f"b:{cps(o[1])}"
+    lit = gg.term(o)
+    dt = str(lit.datatype) if lit.datatype is not None else None
+    return f"l:{cps(str(lit))}:{cps(dt) if dt is not None else '*'}:{cps(lit.language) if lit.language is not None else '*'}"
+
+
+def _ntline_probe(spec):
+    """the line rdflib writes, parsed by the model's W3C line grammar; the model's line, parsed by rdflib"""
+    lines = []
+    for tr in spec["triples"][:NTLINE_MAX]:
+        if any(x[0] == "l" and (x[3] == "" or (len(x) > 4 and x[4] == "raw")) for x in tr):
+            continue
+        g = Graph(bind_namespaces="none")
+        g.add(tuple(gg.term(x) for x in tr))
+        line = g.serialize(format="nt")
+        exp = "ok " + " ".join(_nt_term(x) for x in tr)
+        lines.append((f"ntparse {cps(line)}", exp, None))
+        lines.append(("ntrow " + " ".join(_nt_term(x) for x in tr), exp, "ntrow"))
+    return lines
+
+
+def _ntrow_read_back(out):
+    try:
+        h = Graph().parse(data=uncps(out), format="nt", bnode_context=_KeepLabels())
+        ts = list(h)
+        if len(ts) != 1:
+            return "none"
+        return "ok " + " ".join(_nt_term(gg.unterm(x)) for x in ts[0])
+    except Exception:
+        return "none"
+
+
+class _KeepLabels(dict):
+    """bnode_context that maps every document label to the blank node with that very label (so the observation
+    can name it); label scoping itself is C12's subject"""
+    def get(self, key, default=None):
+        return BNode(key)
+
+    def __setitem__(self, key, value):
+        pass
+
+
 HEXT_MAX = 3
 _XS = gg.XSD + "string"
 
@@ -399,10 +449,11 @@ def run_impl(case):
             done += 1
         else:
             viol.append(f"{st}-{fmt}: {detail}")
-    probe = _probe(spec) + _hext_probe(spec)
+    probe = _probe(spec) + _hext_probe(spec) + _ntline_probe(spec)
     sprobe = _struct_probe(spec)
     obs = [exp for _l, exp, _p in probe] + [exp for _l, exp in sprobe]
     stats["probe_hext"] = sum(1 for l, _e, _p in probe if l.startswith("hext"))
+    stats["probe_ntline"] = sum(1 for l, _e, _p in probe if l.startswith("ntparse"))
     stats["probe_lines"] = len(probe)
     stats["probe_isValidList"] = sum(1 for l, _e in sprobe if l.startswith("vl "))
     stats["probe_isValidList_true"] = sum(1 for l, e in sprobe if l.startswith("vl ") and e == "true")
@@ -422,17 +473,19 @@ def gen_case(rng, tier, i):
 
 
 def model_lines(case):
-    return ([l for l, _e, _p in _probe(case["spec"]) + _hext_probe(case["spec"])]
+    return ([l for l, _e, _p in _probe(case["spec"]) + _hext_probe(case["spec"]) + _ntline_probe(case["spec"])]
             + [l for l, _e in _struct_probe(case["spec"])])
 
 
 def select_model_obs(case, out):
     """The model's own encodings (`ntenc`, `tenc`) are handed to rdflib's readers; the observation is what they read."""
     res = []
-    probe = _probe(case["spec"]) + _hext_probe(case["spec"])
+    probe = _probe(case["spec"]) + _hext_probe(case["spec"]) + _ntline_probe(case["spec"])
     for (_l, _e, post), o in zip(probe, out):
         if post == "hext" and o != "bad-op":
             res.append(_hext_read_back(o))
+        elif post == "ntrow" and o != "bad-op":
+            res.append(_ntrow_read_back(o))
         elif post and o != "bad-op":
             res.append(_read_back(uncps(o), post))
         else:
